@@ -17,9 +17,10 @@ def raiseOK (cx : Ctx) (i j : Nat) : Bool :=
       | _ => false)
    | none => false)
   || (j ≥ 1000000)        -- `limit_depth< N >` / `limit_bytes< N >` blame themselves (ids `limitDepthId`, `limitBytesId`)
+  || (i == j && cx.msgs.contains j)   -- the `failure` hook of `must_if< Errors >::control< j >` raises for its own rule
 
 def raiseStep (cx : Ctx) (s : List Nat) : Ev → Option (List Nat)
-  | .enter i _ _ _ => some (i :: s)
+  | .enter i _ _ _ _ => some (i :: s)
   | .exit i _ _ =>
     match s with
     | f :: rest => if f = i then some rest else none
@@ -58,7 +59,7 @@ theorem RAcc.app {cx : Ctx} {i : Nat} {a b : List Ev} (ha : RAcc cx i a) (hb : R
   exact hb stk
 
 def Ev.raiseNeutral : Ev → Bool
-  | .enter _ _ _ _ | .exit _ _ _ | .raise _ _ => false
+  | .enter _ _ _ _ _ | .exit _ _ _ | .raise _ _ => false
   | _ => true
 
 theorem RAcc.neutral (cx : Ctx) (i : Nat) {e : Ev} (h : e.raiseNeutral = true) : RAcc cx i [e] := by
@@ -92,12 +93,14 @@ theorem nodeCore_raise {cx : Ctx} {rec : Rec} (hrec : RRec cx rec) (k i : Nat) (
     RAcc cx i r.raw := by
   have hb : ∀ mm r1, body cx rec k nd.kind a mm env st = some r1 → RAcc cx i r1.raw := by
     intro mm r1 h1
-    refine body_rawX (RAcc_closed cx i) cx k nd.kind a mm env ?_ ?_ st r1 h1
+    refine body_rawX (RAcc_closed cx i) cx k nd.kind a mm env ?_ ?_ ?_ st r1 h1
     · intro j _ m' st' r' hr'
       exact fun stk => hrec j _ m' _ st' r' hr' _
     · intro j hk c
       refine RAcc.raise c ?_
       rcases hk with hk | hk <;> simp [raiseOK, hn, hk]
+    · intro _ acts b e
+      exact runActs_raw (fun _ => rfl) RAcc.app cx env.sd b e (fun _ => RAcc.neutral cx i rfl) acts
   unfold nodeCore at h
   split at h
   · exact hb _ _ h
@@ -107,6 +110,9 @@ theorem nodeCore_raise {cx : Ctx} {rec : Rec} (hrec : RRec cx rec) (k i : Nat) (
     have act_n : ∀ sd b e, (actEvent cx i (cx.actOf env i nd) sd b e).raiseNeutral = true := by
       intro sd b e; unfold actEvent; split <;> rfl
     simp only [guardRestore_raw]
+    have own_raise : ∀ c, i ∈ cx.msgs → RAcc cx i [Ev.raise i c] := by
+      intro c hm stk
+      simp [runRaise, raiseStep, raiseOK, hm]
     refine RAcc.cons (RAcc.neutral cx i rfl) ?_
     unfold afterBody
     split
@@ -114,7 +120,7 @@ theorem nodeCore_raise {cx : Ctx} {rec : Rec} (hrec : RRec cx rec) (k i : Nat) (
       split
       · exact RAcc.neutral cx i rfl
       · exact fun _ => rfl
-    · exact RAcc.app q0 (RAcc.neutral cx i rfl)
+    · exact failureHook_raw_closed RAcc.app (RAcc.neutral cx i rfl) (fun hm => own_raise _ (Ctx.mem_withCtl_msgs hm)) q0
     · simp only
       split
       · exact RAcc.app q0 (RAcc.neutral cx i rfl)
@@ -122,7 +128,8 @@ theorem nodeCore_raise {cx : Ctx} {rec : Rec} (hrec : RRec cx rec) (k i : Nat) (
         split
         · exact RAcc.neutral cx i rfl
         · exact fun _ => rfl
-      · exact RAcc.app q0 (RAcc.cons (RAcc.neutral cx i (act_n _ _ _)) (RAcc.neutral cx i rfl))
+      · exact failureHook_raw_closed RAcc.app (RAcc.neutral cx i rfl) (fun hm => own_raise _ (Ctx.mem_withCtl_msgs hm))
+          (RAcc.app q0 (RAcc.neutral cx i (act_n _ _ _)))
       · exact RAcc.app q0 (RAcc.cons (RAcc.neutral cx i (act_n _ _ _)) (RAcc.neutral cx i rfl))
 
 theorem stateScope_racc {cx : Ctx} {i : Nat} {o : Nat} {b : Bool} {r : Ret} (h : RAcc cx i r.raw) :
@@ -168,6 +175,7 @@ theorem nodeCall_raise {cx : Ctx} {rec : Rec} (hrec : RRec cx rec) (k i : Nat) (
       · simp only [Option.map_eq_some_iff] at h0
         obtain ⟨r1, h1, rfl⟩ := h0
         exact stateScope_racc (fun s => hrec _ _ _ _ _ _ h1 _)
+      · exact nodeCore_raise hrec k i nd hn a m _ st r0 h0
     simp only [bracket, dropOnFail_raw, List.cons_append, runRaise, raiseStep]
     rw [runRaise_append, key stk]
     simp [runRaise, raiseStep]
